@@ -70,8 +70,10 @@ func Lib() *ty.Env {
 	e.Decls[xc].Under.Blanks = map[int]string{0: "int32", 1: "bool"}
 	// a non-comparable struct holding a NAMED float: -0 and +0 are Equal there and must hash alike
 	add("SNF", "", ty.St(f("T", ty.N(2)), f("S", ty.Sl(b("string")))), false) // 36
-	nsc := add("NSC", "", b("string"), false) // 37: a named string with its own (coarse) Compare method, used as a map key
+	nsc := add("NSC", "", b("string"), false)                                 // 37: a named string with its own (coarse) Compare method, used as a map key
 	e.Decls[nsc].Methods = "Cs"
+	ud := add("UD", "", ty.St(f("A", b("int")), f("B", ty.Sl(b("int")))), false) // 38: declares its own DeepCopy
+	e.Decls[ud].Methods = "Dp"
 	return e
 }
 
@@ -239,6 +241,11 @@ func MethodSrc(d *ty.Decl) string {
 			// on a named string: a Compare that is coarser than the natural order (every pair ties). Sort, keys and
 			// hash order such keys with <, never with this method; only the compare plugin would call it.
 			src += fmt.Sprintf("func (this %[1]s) Compare(that %[1]s) int { return 0 }\n\n", n)
+		case "Dp":
+			// DeepCopy written by hand exactly as the derived function copies these two fields (same reuse of the
+			// destination's backing array, same allocations): the models need not know the method exists, while the
+			// generator's method dispatch (call the method instead of requesting a helper) is exercised
+			src += fmt.Sprintf("func (this *%[1]s) DeepCopy(that *%[1]s) {\n\tthat.A = this.A\n\tif this.B == nil {\n\t\tthat.B = nil\n\t} else {\n\t\tif that.B != nil {\n\t\t\tif len(this.B) > len(that.B) {\n\t\t\t\tif cap(that.B) >= len(this.B) {\n\t\t\t\t\tthat.B = (that.B)[:len(this.B)]\n\t\t\t\t} else {\n\t\t\t\t\tthat.B = make([]int, len(this.B))\n\t\t\t\t}\n\t\t\t} else if len(this.B) < len(that.B) {\n\t\t\t\tthat.B = (that.B)[:len(this.B)]\n\t\t\t}\n\t\t} else {\n\t\t\tthat.B = make([]int, len(this.B))\n\t\t}\n\t\tcopy(that.B, this.B)\n\t}\n}\n\n", n)
 		case "Hp":
 			src += fmt.Sprintf("func (this *%[1]s) Hash() int32 {\n\tif this == nil {\n\t\treturn 0\n\t}\n\treturn int32(this.A)\n}\n\n", n)
 		}
